@@ -346,6 +346,10 @@ def XOp.wellNamed : XOp → Bool
   | .remove p => p.wellNamed
   | _ => true
 
+def XCmd.wellNamed : XCmd → Bool
+  | .op o => o.wellNamed
+  | _ => true
+
 theorem xnodup_step {s : XW} (hnd : s.m.cur.Nodup) (o : XOp) : (s.step o).m.cur.Nodup := by
   cases o with
   | add q => simp only [XW.step, xw_add_cur]; exact nodup_sinsert hnd
